@@ -579,3 +579,214 @@ theorem crossoff_covers210 (stop p L : Nat) (hp : Nat.gcd (p % 30) 30 = 1) (hp0 
   exact ⟨q1, j, hd, hj, hdj⟩
 
 end Ps.Wheel
+
+namespace Ps.Wheel
+
+
+/-- **the two overflow guards make 64-bit wrap-around invisible**: for every sieving prime p < 2^32 (sieving primes are
+    ≤ √stop), every segment start and every stop below 2^64, Wheel::addSievingPrime computed with wrapping
+    uint64_t arithmetic returns exactly what the same function returns over unbounded integers: a product
+    p·q that exceeds 2^64 wraps to a value below p ≤ segmentLow and is caught by `multiple < segmentLow`;
+    p·nextMultipleFactor never wraps; `nextMultiple > stop - multiple` is evaluated only when multiple ≤ stop -/
+theorem addSievingPrime_eq_exact (M size : Nat) (init : List (Nat × Nat)) (hinit : ∀ x, (init.getD x (0, 0)).1 ≤ 10)
+    (stop p L : Nat) (hp0 : 0 < p) (hp : p < 4294967296) (hL : L + 6 < U64) (hstop : stop < U64) :
+    addSievingPrime M size init stop p L = addSievingPrimeExact M size init stop p L := by
+  unfold addSievingPrime addSievingPrimeExact
+  have hU : U64 = 18446744073709551616 := rfl
+  have e6 : add64 L 6 = L + 6 := by unfold add64; exact Nat.mod_eq_of_lt hL
+  simp only [e6]
+  generalize hq : max p ((L + 6) / p + 1) = q0
+  have hq0 : (L + 6) / p + 1 ≤ q0 := by omega
+  have hgt : L + 6 < p * q0 := by
+    have h2 : L + 6 < p * ((L + 6) / p + 1) := Nat.lt_mul_div_succ (L + 6) hp0
+    exact Nat.lt_of_lt_of_le h2 (Nat.mul_le_mul_left p hq0)
+  have hnm : ∀ x, mul64 p (init.getD x (0, 0)).1 = p * (init.getD x (0, 0)).1 := by
+    intro x
+    unfold mul64; apply Nat.mod_eq_of_lt
+    have := hinit x
+    have : p * (init.getD x (0, 0)).1 ≤ p * 10 := Nat.mul_le_mul_left p this
+    omega
+  by_cases hP : p * q0 < U64
+  · have hm : mul64 p q0 = p * q0 := by unfold mul64; exact Nat.mod_eq_of_lt hP
+    rw [hm]
+    by_cases c1 : p * q0 > stop
+    · have : p * q0 > stop ∨ p * q0 < L + 6 := Or.inl c1
+      rw [if_pos this, if_pos c1]
+    · have : ¬ (p * q0 > stop ∨ p * q0 < L + 6) := by omega
+      rw [if_neg this, if_neg c1]
+      simp only [hnm]
+      by_cases c2 : p * (init.getD (q0 % M) (0, 0)).1 > stop - p * q0
+      · rw [if_pos c2, if_pos (by omega)]
+      · rw [if_neg c2, if_neg (by omega)]
+  · -- the product exceeds 2^64: the exact function sees multiple > stop, the wrapped value is below p ≤ L + 6
+    have hbig : p * q0 > stop := by omega
+    rw [if_pos hbig]
+    -- q0 is not p (p·p < 2^64), so q0 = (L+6)/p + 1
+    have hpp : p * p < U64 := by
+      have : p * p ≤ 4294967295 * 4294967295 := Nat.mul_le_mul (by omega) (by omega)
+      omega
+    have hqne : q0 = (L + 6) / p + 1 := by
+      rcases Nat.le_total p ((L + 6) / p + 1) with h | h
+      · rw [← hq]; exact Nat.max_eq_right h
+      · have : q0 = p := by rw [← hq]; exact Nat.max_eq_left h
+        rw [this] at hP; exact absurd hpp hP
+    have hle : p * q0 ≤ L + 6 + p := by
+      rw [hqne, Nat.mul_add, Nat.mul_one]
+      have := Nat.mul_div_le (L + 6) p
+      omega
+    have hpL : p ≤ L + 6 := by
+      -- (L+6)/p + 1 > p  (else q0 = p)
+      have hqp : p < q0 := by
+        by_contra hnot
+        have : q0 = p := by omega
+        rw [this] at hP; exact absurd hpp hP
+      have h1 : p ≤ (L + 6) / p := by omega
+      have h2 : p * ((L + 6) / p) ≤ L + 6 := Nat.mul_div_le (L + 6) p
+      have h3 : p * 1 ≤ p * ((L + 6) / p) := Nat.mul_le_mul_left p (by omega)
+      omega
+    have hwrap : mul64 p q0 < L + 6 := by
+      unfold mul64
+      have : p * q0 % U64 = p * q0 - U64 := by
+        rw [Nat.mod_eq_sub_mod (by omega)]
+        exact Nat.mod_eq_of_lt (by omega)
+      rw [this]; omega
+    rw [if_pos (Or.inr hwrap)]
+
+
+
+theorem addSievingPrimeExact_spec (M size : Nat) (init : List (Nat × Nat))
+    (hM30 : M % 30 = 0) (hMpos : 0 < M) (hsize : (cls M).length = size) (hspos : 0 < size)
+    (hinit : init = (List.range M).map (specInit M))
+    (hinitok : ∀ x, x < M → InitOK M x = true)
+    (hbit : ∀ r, r < 8 → ∀ k, k < size → BitOK M r k = true)
+    (stop p L : Nat) (hp : Nat.gcd (p % 30) 30 = 1) (hp0 : 0 < p) (hL : L % 30 = 0)
+    (s : SP) (h : addSievingPrimeExact M size init stop p L = some s) :
+    ∃ q, Denotes M L s q ∧ max p ((L + 6) / p + 1) ≤ q ∧ p * q ≤ stop ∧
+      (∀ x, max p ((L + 6) / p + 1) ≤ x → x < q → Nat.gcd x M ≠ 1) ∧ s.sp = p / 30 := by
+  unfold addSievingPrimeExact at h
+  simp only at h
+  set q0 := max p ((L + 6) / p + 1) with hq0
+  have hxM : q0 % M < M := Nat.mod_lt _ hMpos
+  have I := hinitok _ hxM
+  simp only [InitOK, Bool.and_eq_true, decide_eq_true_eq] at I
+  obtain ⟨⟨⟨hg, hskip⟩, hk⟩, hcls⟩ := I
+  have hget : init.getD (q0 % M) (0, 0) = specInit M (q0 % M) := by
+    rw [hinit, List.getD_eq_getElem?_getD, List.getElem?_map, List.getElem?_range hxM]; rfl
+  rw [hget] at h
+  set e := specInit M (q0 % M) with he
+  have hdM : e.1 < M ∨ e.1 = 0 := by
+    -- d comes from a search below M
+    simp only [he, specInit]
+    cases hf : (List.range M).find? (fun d => Nat.gcd (q0 % M + d) M = 1) with
+    | none => right; rfl
+    | some d => left; have := List.mem_of_find?_eq_some hf; simpa using this
+  have hdlt : e.1 ≤ M := by rcases hdM with h1 | h1 <;> omega
+  split_ifs at h with c1 c2
+  injection h with h
+  subst h
+  -- the multiple p·q0 lies above L + 6
+  have hq0gt : L + 6 < p * q0 := by
+    have h1 : (L + 6) / p + 1 ≤ q0 := by omega
+    have h2 : L + 6 < p * ((L + 6) / p + 1) := Nat.lt_mul_div_succ (L + 6) hp0
+    exact Nat.lt_of_lt_of_le h2 (Nat.mul_le_mul_left p h1)
+  refine ⟨q0 + e.1, ?_, by omega, ?_, ?_, rfl⟩
+  · -- Denotes
+    obtain ⟨r, hr8, hrp, hru⟩ := primeRes_cover (p % 30) (Nat.mod_lt _ (by decide)) hp
+    have hw : (Gen.wheelOffsetUnits.getD (p % 30) 0 * size + e.2) / size = r := by
+      rw [hru, Nat.mul_comm, Nat.mul_add_div hspos, Nat.div_eq_of_lt (by rw [← hsize]; exact hk)]; rfl
+    have hwk : (Gen.wheelOffsetUnits.getD (p % 30) 0 * size + e.2) % size = e.2 := by
+      rw [hru, Nat.mul_comm, Nat.mul_add_mod, Nat.mod_eq_of_lt (by rw [← hsize]; exact hk)]
+    have hqcls : (q0 + e.1) % M = (cls M).getD e.2 0 := by
+      rw [hcls, Nat.mod_add_mod]
+    have B := hbit r hr8 e.2 (by rw [← hsize]; exact hk)
+    simp only [BitOK, Bool.and_eq_true, decide_eq_true_eq] at B
+    obtain ⟨⟨⟨⟨hb8, hbmod⟩, hb7⟩, hb31⟩, hb30⟩ := B
+    refine ⟨?_, ?_, ?_⟩
+    · show _ / (cls M).length < 8
+      rw [hsize, hw]; exact hr8
+    · show (q0 + e.1) % M = (cls M).getD (_ % (cls M).length) 0
+      rw [hsize, hwk]; exact hqcls
+    · show (30 * (p / 30) + primeRes.getD (_ / (cls M).length) 0) * (q0 + e.1) =
+        L + 30 * ((p * q0 + p * e.1 - (L + 6)) / 30) + offs.getD (specRow M (_ / (cls M).length) (_ % (cls M).length)).1 0
+      rw [hsize, hw, hwk, hrp]
+      have hpdec : 30 * (p / 30) + p % 30 = p := Nat.div_add_mod p 30
+      rw [hpdec, Nat.mul_add]
+      -- the offset is congruent to the multiple
+      set o := offs.getD (specRow M r e.2).1 0 with ho
+      have hmm : (p * q0 + p * e.1) % 30 = o % 30 := by
+        rw [hbmod, hrp, ← Nat.mul_add]
+        have h1 : (q0 + e.1) % 30 = ((cls M).getD e.2 0) % 30 := by
+          rw [← hqcls]
+          have : M = 30 * (M / 30) := by omega
+          rw [this, Nat.mod_mul_right_mod]
+        rw [Nat.mul_mod, h1, ← Nat.mul_mod]
+        rw [Nat.mul_mod p, Nat.mul_mod (p % 30) ((cls M).getD e.2 0), Nat.mod_mod]
+      have hgt : L + 6 < p * q0 + p * e.1 := by omega
+      omega
+  · rw [Nat.mul_add]; omega
+  · intro x hx1 hx2 hgx
+    -- x = q0 + d with d < e.1
+    have hd : x - q0 < e.1 := by omega
+    have := List.all_eq_true.mp hskip (x - q0) (List.mem_range.mpr hd)
+    simp only [decide_eq_true_eq] at this
+    apply this
+    have e1 : q0 % M + (x - q0) + M * (q0 / M) = x := by
+      have := Nat.mod_add_div q0 M; omega
+    rw [← e1, Nat.gcd_comm, Nat.gcd_add_mul_left_right, Nat.gcd_comm] at hgx
+    exact hgx
+
+
+
+/-- when addSievingPrime drops a prime, no admissible multiple of it lies at or below stop -/
+theorem addSievingPrimeExact_none (M size : Nat) (init : List (Nat × Nat))
+    (hMpos : 0 < M) (hinit : init = (List.range M).map (specInit M))
+    (hinitok : ∀ x, x < M → InitOK M x = true)
+    (stop p L : Nat) (h : addSievingPrimeExact M size init stop p L = none)
+    (x : Nat) (hx : max p ((L + 6) / p + 1) ≤ x) (hg : Nat.gcd x M = 1) : stop < p * x := by
+  unfold addSievingPrimeExact at h
+  simp only at h
+  set q0 := max p ((L + 6) / p + 1) with hq0
+  have hxM : q0 % M < M := Nat.mod_lt _ hMpos
+  have I := hinitok _ hxM
+  simp only [InitOK, Bool.and_eq_true, decide_eq_true_eq] at I
+  obtain ⟨⟨⟨_, hskip⟩, _⟩, _⟩ := I
+  have hget : init.getD (q0 % M) (0, 0) = specInit M (q0 % M) := by
+    rw [hinit, List.getD_eq_getElem?_getD, List.getElem?_map, List.getElem?_range hxM]; rfl
+  rw [hget] at h
+  have hmono : p * q0 ≤ p * x := Nat.mul_le_mul_left p hx
+  split_ifs at h with c1 c2
+  · omega
+  · -- x is at least q0 + d: everything in [q0, q0 + d) shares a factor with M
+    have hge : q0 + (specInit M (q0 % M)).1 ≤ x := by
+      by_contra hlt
+      have hd : x - q0 < (specInit M (q0 % M)).1 := by omega
+      have := List.all_eq_true.mp hskip (x - q0) (List.mem_range.mpr hd)
+      simp only [decide_eq_true_eq] at this
+      apply this
+      have e1 : q0 % M + (x - q0) + M * (q0 / M) = x := by
+        have := Nat.mod_add_div q0 M; omega
+      rw [← e1, Nat.gcd_comm, Nat.gcd_add_mul_left_right, Nat.gcd_comm] at hg
+      exact hg
+    have : p * (q0 + (specInit M (q0 % M)).1) ≤ p * x := Nat.mul_le_mul_left p hge
+    rw [Nat.mul_add] at this
+    omega
+
+
+theorem init_le_10 : (∀ x, (Gen.wheel30Init.getD x (0, 0)).1 ≤ 10) ∧ (∀ x, (Gen.wheel210Init.getD x (0, 0)).1 ≤ 10) := by
+  have l30 : Gen.wheel30Init.length = 30 := by decide
+  have l210 : Gen.wheel210Init.length = 210 := by decide +kernel
+  have h30 : ∀ y, y < 30 → (Gen.wheel30Init.getD y (0, 0)).1 ≤ 10 := by decide
+  have h210 : ∀ y, y < 210 → (Gen.wheel210Init.getD y (0, 0)).1 ≤ 10 := by decide +kernel
+  constructor
+  · intro x
+    by_cases h : x < 30
+    · exact h30 x h
+    · have hn : Gen.wheel30Init[x]? = none := List.getElem?_eq_none (by omega)
+      rw [List.getD_eq_getElem?_getD, hn]; decide
+  · intro x
+    by_cases h : x < 210
+    · exact h210 x h
+    · have hn : Gen.wheel210Init[x]? = none := List.getElem?_eq_none (by omega)
+      rw [List.getD_eq_getElem?_getD, hn]; decide
+
+end Ps.Wheel
